@@ -216,5 +216,13 @@ def run(ctx):
             f(ctx, TM)
         except Unrecognised as e:
             ctx.unrecognised(e.rule, e.msg, e.fn, e.line)
+    # "parsed ranges hold only ..." also needs every map entry of a parsed range to come out of a token expansion: the range
+    # parser's pipeline (C05's rule, re-evaluated here because this property's statement depends on it)
+    try:
+        from rules import c05
+        from sa.report import PrefixCtx
+        c05.rule_range_parser(PrefixCtx(ctx, "C05", "C10", allowed=["range-parser"]), F)
+    except Unrecognised as e:
+        ctx.unrecognised("C10.range-parser", e.msg, e.fn, e.line)
     ctx.assume("f32::from_str is correctly rounded and monotone; 0 and 1 are representable")
     ctx.assume("Pocket and Ofsuit combos always differ in suit, Suited combos differ in rank when a != b (combo tables: C05/C12)")
